@@ -38,7 +38,7 @@ Mut(x) ==
                         {[f |-> "uncertainty", v |-> u] : u \in {"0", "0.5", "2"}} \cup
                         {[f |-> "value_origin", v |-> c] : c \in TextC} \cup
                         {[f |-> "reference", v |-> c] : c \in {"X", "Y"}} \cup
-                        {[f |-> "vals", v |-> c] : c \in {"v45", "text", "empty", "float", "mixed", "v01"}}
+                        {[f |-> "vals", v |-> c] : c \in {"v45", "text", "empty", "float", "mixed", "v01", "f12"}}
     ELSE {})
 Next == /\ nmut < MaxMut
         /\ nmut' = nmut + 1
